@@ -790,8 +790,9 @@ fn tla_field(label: &str, var: &str) -> Option<String> {
     let key = format!("{var} = ");
     let i = label.find(&key)?;
     let rest = &label[i + key.len()..];
-    let end = rest.find("\\n").unwrap_or(rest.len());
-    Some(rest[..end].to_string())
+    // a long value is wrapped over several lines; the field ends where the next conjunct starts
+    let end = rest.find("\\n/\\\\").unwrap_or(rest.len());
+    Some(rest[..end].replace("\\n", " "))
 }
 fn tla_sets(s: &str) -> Vec<BTreeSet<usize>> {
     let inner = s.trim().trim_start_matches("<<").trim_end_matches(">>");
